@@ -398,3 +398,7 @@ mod tests {
 
     mixtrics::test! { test_fn }
 }
+
+#[cfg(kani)]
+#[path = "/verif/harness/foyer-common/metrics.rs"]
+mod verif_kani;
